@@ -744,172 +744,188 @@ func c01r8(p *Program, r *Report) {
 		return
 	}
 	winfo := wh.Pkg.TypesInfo
-	layouts, ok := appendLayouts(winfo, wh.Decl.Body.List, "f.buf")
-	if !ok || len(layouts) != 2 {
-		r.Unresolved("writeHeader: expected two append layouts (v<=2 / v>=3), got %d (ok=%v)", len(layouts), ok)
-		return
+	flagsName, opName, streamName := "flags", "op", "stream"
+	if po := paramObj(winfo, wh.Decl.Type, 0); po != nil {
+		flagsName = po.Name()
 	}
-	// classify layouts by total size
-	var l8, l9 *Layout
-	for i := range layouts {
-		switch len(layouts[i].Items) {
-		case 8:
-			l8 = &layouts[i]
-		case 9:
-			l9 = &layouts[i]
-		}
-	}
-	if !r.Check(l8 != nil && l9 != nil, wh.Decl, "writeHeader header sizes", "8 bytes (v1-2) and 9 bytes (v3+)", fmt.Sprintf("writeHeader appends %d and %d bytes; the protocol header is 8 (v1-2) or 9 (v3+) bytes", len(layouts[0].Items), len(layouts[1].Items))) {
-		return
-	}
-	// which condition selects the 9-byte layout
-	cond9 := strings.Join(l9.Conds, "&")
-	r.Check(strings.Contains(cond9, "f.proto > protoVersion2=true") || strings.Contains(cond9, "f.proto >= protoVersion3=true") || strings.Contains(cond9, "f.proto < protoVersion3=false") || strings.Contains(cond9, "f.proto <= protoVersion2=false"),
-		wh.Decl, "writeHeader 2-byte stream iff version > 2", "9-byte header selected by "+cond9, "the 9-byte header layout is selected by "+cond9+", not by protocol version > 2")
-	streamName := "stream"
-	if po := paramObj(winfo, wh.Decl.Type, 2); po != nil {
-		streamName = po.Name()
-	}
-	opName := "op"
 	if po := paramObj(winfo, wh.Decl.Type, 1); po != nil {
 		opName = po.Name()
 	}
-	chk := func(l *Layout, idx int, base string, shift int, what string) {
-		it := l.Items[idx]
-		r.Check(!it.IsConst && it.Base == base && it.Shift == shift, wh.Decl, fmt.Sprintf("writeHeader[%d-byte] byte %d = %s", len(l.Items), idx, what),
-			it.String(), fmt.Sprintf("header byte %d is %s, expected %s", idx, it.String(), what))
+	if po := paramObj(winfo, wh.Decl.Type, 2); po != nil {
+		streamName = po.Name()
 	}
-	chk(l9, 2, streamName, 8, "stream>>8")
-	chk(l9, 3, streamName, 0, "stream")
-	chk(l9, 4, opName, 0, "opcode")
-	chk(l8, 2, streamName, 0, "stream")
-	chk(l8, 3, opName, 0, "opcode")
-	for _, l := range []*Layout{l8, l9} {
+	lenName := "length"
+	if po := paramObj(sl.Pkg.TypesInfo, sl.Decl.Type, 0); po != nil {
+		lenName = po.Name()
+	}
+	// The writer is interpreted for a concrete protocol version (helpers followed): the bytes appended to f.buf
+	// after the last reset are the header layout of that version.
+	writerLayout := func(v int) ([]ByteItem, bool) {
+		tr := &tracer{p: p, prims: map[string]string{}, maxPaths: 64, inline: map[string]bool{}, trackBuf: "f.buf"}
+		paths := tr.run(wh, v)
+		if len(paths) != 1 || len(tr.unsup) > 0 {
+			r.Unresolved("writeHeader v%d: %d paths, %v", v, len(paths), tr.unsup)
+			return nil, false
+		}
+		var items []ByteItem
+		for _, it := range flat(paths[0].trace) {
+			switch it.Prim {
+			case "reset":
+				items = nil
+			case "bytes":
+				items = append(items, it.Bytes...)
+			}
+		}
+		return items, true
+	}
+	setLengthStores := func(v int) (map[int]ByteItem, bool) {
+		tr := &tracer{p: p, prims: map[string]string{}, maxPaths: 64, inline: map[string]bool{}, trackBuf: "f.buf"}
+		paths := tr.run(sl, v)
+		if len(paths) != 1 || len(tr.unsup) > 0 {
+			r.Unresolved("setLength v%d: %d paths, %v", v, len(paths), tr.unsup)
+			return nil, false
+		}
+		out := map[int]ByteItem{}
+		for _, it := range flat(paths[0].trace) {
+			if it.Prim == "store" && len(it.Bytes) == 1 {
+				out[it.Off] = it.Bytes[0]
+			}
+			if it.Prim == "store-le" {
+				out[-1] = ByteItem{}
+			}
+		}
+		return out, true
+	}
+	// The reader, likewise, for the version class its local `version` variable takes.
+	type fieldRead struct {
+		dec fixedDecoding
+		ok  bool
+		e   ast.Expr
+	}
+	readerFields := func(v int) (map[string]fieldRead, bool) {
+		tr := &tracer{p: p, prims: map[string]string{}, maxPaths: 256, inline: map[string]bool{}, trackVar: "head"}
+		if rh.Decl.Type.Results != nil && len(rh.Decl.Type.Results.List) > 0 && len(rh.Decl.Type.Results.List[0].Names) > 0 {
+			tr.trackVar = rh.Decl.Type.Results.List[0].Names[0].Name
+		}
+		out := map[string]fieldRead{}
+		n := 0
+		for _, st := range tr.run(rh, v) {
+			ft := flat(st.trace)
+			if traceHasError(ft) || st.done == "panic" {
+				continue
+			}
+			has := false
+			for _, it := range ft {
+				if it.Prim == "field" {
+					has = true
+				}
+			}
+			if !has {
+				continue
+			}
+			n++
+			for _, it := range ft {
+				if it.Prim != "field" {
+					continue
+				}
+				rinfo := rh.Pkg.TypesInfo
+				e := it.Expr
+				// readInt(p[k:]) is the 4-byte big-endian reader (checked by C04.R5)
+				if c, ok := ast.Unparen(stripAllConv(rinfo, e)).(*ast.CallExpr); ok && isCallTo(rinfo, c, "readInt") && len(c.Args) == 1 {
+					base, off := sliceBase(rinfo, c.Args[0])
+					out[it.Arg] = fieldRead{fixedDecoding{Width: 4, Base: base, Offset: off, BigEndian: true, Conv: "int32", How: "readInt"}, true, e}
+					continue
+				}
+				if d, ok := decodingOf(rinfo, e); ok {
+					out[it.Arg] = fieldRead{d, true, e}
+					continue
+				}
+				// a single byte: T(p[k])
+				if ix, ok := ast.Unparen(stripAllConv(rinfo, e)).(*ast.IndexExpr); ok {
+					if k, ok := constInt(rinfo, ix.Index); ok {
+						conv := ""
+						if c, ok := ast.Unparen(e).(*ast.CallExpr); ok && len(c.Args) == 1 {
+							// innermost conversion decides the sign
+							cur := ast.Expr(c)
+							for {
+								cc, ok := ast.Unparen(cur).(*ast.CallExpr)
+								if !ok || len(cc.Args) != 1 {
+									break
+								}
+								if tv, ok := rinfo.Types[cc.Fun]; ok && tv.IsType() {
+									conv = tv.Type.String()
+								}
+								cur = cc.Args[0]
+							}
+						}
+						out[it.Arg] = fieldRead{fixedDecoding{Width: 1, Base: exprStr(ix.X), Offset: int(k), BigEndian: true, Conv: conv, How: "byte"}, true, e}
+						continue
+					}
+				}
+				out[it.Arg] = fieldRead{e: e}
+			}
+		}
+		if n == 0 || len(tr.unsup) > 0 {
+			r.Unresolved("readHeader v%d: %d successful paths, %v", v, n, tr.unsup)
+			return nil, false
+		}
+		return out, true
+	}
+	for _, v := range []int{2, 3} {
+		class := "v1-2"
+		wantLen, streamW := 8, 1
+		if v >= 3 {
+			class, wantLen, streamW = "v3+", 9, 2
+		}
+		lay, ok := writerLayout(v)
+		if !ok {
+			continue
+		}
+		if !r.Check(len(lay) == wantLen, wh.Decl, "writeHeader["+class+"] header size", fmt.Sprintf("%d bytes", wantLen), fmt.Sprintf("writeHeader appends %d bytes for %s; the protocol header is %d bytes", len(lay), class, wantLen)) {
+			continue
+		}
+		chk := func(idx int, base string, shift int, what string) {
+			it := lay[idx]
+			r.Check(!it.IsConst && it.Base == base && it.Shift == shift, wh.Decl, fmt.Sprintf("writeHeader[%s] byte %d = %s", class, idx, what), it.String(), fmt.Sprintf("header byte %d is %s, expected %s", idx, it.String(), what))
+		}
+		chk(0, "f.proto", 0, "protocol version")
+		chk(1, flagsName, 0, "flags")
+		for i := 0; i < streamW; i++ {
+			chk(2+i, streamName, 8*(streamW-1-i), fmt.Sprintf("stream>>%d", 8*(streamW-1-i)))
+		}
+		chk(2+streamW, opName, 0, "opcode")
 		zeros := true
-		for _, it := range l.Items[len(l.Items)-4:] {
+		for _, it := range lay[wantLen-4:] {
 			if !it.IsConst || it.Val != 0 {
 				zeros = false
 			}
 		}
-		r.Check(zeros, wh.Decl, fmt.Sprintf("writeHeader[%d-byte] length placeholder", len(l.Items)), "last four bytes reserved for the length", "the last four header bytes are not the length placeholder")
-	}
-
-	// reader
-	rinfo := rh.Pkg.TypesInfo
-	type fieldRead struct {
-		branchHas9 bool
-		field      string
-		rhs        ast.Expr
-		node       ast.Node
-	}
-	var reads []fieldRead
-	ast.Inspect(rh.Decl.Body, func(n ast.Node) bool {
-		as, ok := n.(*ast.AssignStmt)
-		if !ok || len(as.Lhs) != 1 || len(as.Rhs) != 1 {
-			return true
-		}
-		fv := fieldOf(rinfo, as.Lhs[0])
-		if fv == nil || !(p.isField(rinfo, as.Lhs[0], "frameHeader", "stream") || p.isField(rinfo, as.Lhs[0], "frameHeader", "op") || p.isField(rinfo, as.Lhs[0], "frameHeader", "length")) {
-			return true
-		}
-		// which branch: enclosing if on version
-		is9 := false
-		if ifs, ok := p.enclosing(as, rh.Decl, func(x ast.Node) bool { _, ok := x.(*ast.IfStmt); return ok }).(*ast.IfStmt); ok {
-			inThen := posWithin(ifs.Body, as.Pos())
-			c := exprStr(ifs.Cond)
-			gt2 := c == "version > protoVersion2" || c == "version >= protoVersion3"
-			le2 := c == "version < protoVersion3" || c == "version <= protoVersion2"
-			if !gt2 && !le2 {
-				r.Unresolved("readHeader: field %s assigned under unrecognised condition %q", fv.Name(), c)
-				return true
-			}
-			is9 = gt2 == inThen
-		}
-		reads = append(reads, fieldRead{is9, fv.Name(), as.Rhs[0], as})
-		return true
-	})
-	for _, fr := range reads {
-		class := "v1-2"
-		wl := l8
-		if fr.branchHas9 {
-			class, wl = "v3+", l9
-		}
-		name := "readHeader[" + class + "] " + fr.field
-		switch fr.field {
-		case "stream":
-			terms, ok := parseOrChain(rinfo, fr.rhs)
-			if !ok {
-				r.Bad(fr.node, name, "stream field is not read as a byte combination: "+exprStr(fr.rhs))
-				continue
-			}
-			lo, n, be := isBigEndian(terms)
-			wantN := 1
-			if fr.branchHas9 {
-				wantN = 2
-			}
-			signed := true
-			for _, t := range terms {
-				if !strings.HasPrefix(t.Conv, "int") {
-					signed = false
+		r.Check(zeros, wh.Decl, "writeHeader["+class+"] length placeholder", "last four bytes reserved for the length", "the last four header bytes are not the length placeholder")
+		// setLength patches exactly that placeholder, big-endian
+		if st, ok := setLengthStores(v); ok {
+			okSt := len(st) == 4
+			for i := 0; i < 4; i++ {
+				it, has := st[wantLen-4+i]
+				if !has || it.Base != lenName || it.Shift != 8*(3-i) {
+					okSt = false
 				}
 			}
-			okW := true
-			for i := 0; i < n && lo+i < len(wl.Items); i++ {
-				it := wl.Items[lo+i]
-				if it.Base != streamName || it.Shift != 8*(n-1-i) {
-					okW = false
-				}
-			}
-			r.Check(be && n == wantN && lo == 2 && signed && okW, fr.node, name, fmt.Sprintf("big-endian signed %d-byte field at offset %d, matching the writer", n, lo),
-				fmt.Sprintf("reader takes the stream id from %s (offset %d width %d big-endian=%v signed=%v) but the writer puts it at offset 2 width %d", exprStr(fr.rhs), lo, n, be, signed, wantN))
-		case "op":
-			terms, ok := parseOrChain(rinfo, fr.rhs)
-			want := 3
-			if fr.branchHas9 {
-				want = 4
-			}
-			r.Check(ok && len(terms) == 1 && terms[0].Index == want && wl.Items[want].Base == opName, fr.node, name, fmt.Sprintf("opcode at offset %d in both", want), "opcode offset differs between reader ("+exprStr(fr.rhs)+") and writer")
-		case "length":
-			// readInt(p[k:])
-			want := 4
-			if fr.branchHas9 {
-				want = 5
-			}
-			got := -1
-			ast.Inspect(fr.rhs, func(m ast.Node) bool {
-				if se, ok := m.(*ast.SliceExpr); ok && se.Low != nil {
-					if k, ok := constInt(rinfo, se.Low); ok {
-						got = int(k)
-					}
-				}
-				return true
-			})
-			r.Check(got == want && got == len(wl.Items)-4, fr.node, name, fmt.Sprintf("length at offset %d in both", want), fmt.Sprintf("length read from offset %d, writer reserves offset %d", got, len(wl.Items)-4))
+			r.Check(okSt, sl.Decl, "setLength["+class+"] patches the 4 placeholder bytes big-endian", fmt.Sprintf("stores at offsets %d..%d", wantLen-4, wantLen-1), fmt.Sprintf("setLength does not store the length big-endian into header bytes %d..%d (stores: %v)", wantLen-4, wantLen-1, st))
+		}
+		// the reader takes every field from where the writer put it
+		if rf, ok := readerFields(v); ok {
+			s := rf["stream"]
+			signed := strings.HasPrefix(s.dec.Conv, "int")
+			r.Check(s.ok && s.dec.BigEndian && s.dec.Offset == 2 && s.dec.Width == streamW && signed, rh.Decl, "readHeader["+class+"] stream", fmt.Sprintf("big-endian signed %d-byte field at offset 2, matching the writer", streamW),
+				fmt.Sprintf("reader takes the stream id from %s (offset %d width %d big-endian=%v conversion %s) but the writer puts it at offset 2 width %d, and the id is a signed quantity", exprStr(s.e), s.dec.Offset, s.dec.Width, s.dec.BigEndian, s.dec.Conv, streamW))
+			o := rf["op"]
+			r.Check(o.ok && o.dec.Width == 1 && o.dec.Offset == 2+streamW, rh.Decl, "readHeader["+class+"] op", fmt.Sprintf("opcode at offset %d in both", 2+streamW), "opcode offset differs between reader ("+exprStr(o.e)+") and writer")
+			l := rf["length"]
+			r.Check(l.ok && l.dec.Width == 4 && l.dec.BigEndian && l.dec.Offset == wantLen-4, rh.Decl, "readHeader["+class+"] length", fmt.Sprintf("length at offset %d in both", wantLen-4), fmt.Sprintf("length read from %s (offset %d), writer reserves offset %d", exprStr(l.e), l.dec.Offset, wantLen-4))
+			fl := rf["flags"]
+			r.Check(fl.ok && fl.dec.Width == 1 && fl.dec.Offset == 1, rh.Decl, "readHeader["+class+"] flags", "flags at offset 1 in both", "flags offset differs between reader ("+exprStr(fl.e)+") and writer")
 		}
 	}
-	if len(reads) < 6 {
-		r.Unresolved("readHeader: expected 6 field assignments (stream/op/length x 2 classes), found %d", len(reads))
-	}
-	// setLength: p = 4 / 5, stores byte(length>>24..0) at p+0..3
-	sinfo := sl.Pkg.TypesInfo
-	stores := indexStores(sinfo, sl.Decl.Body)
-	okStores := len(stores) == 4
-	for _, s := range stores {
-		if s.Item.Shift != 8*(3-s.Off) || s.Sym == "" {
-			okStores = false
-		}
-	}
-	r.Check(okStores, sl.Decl, "setLength big-endian 4 bytes", "length patched big-endian at p+0..p+3", "setLength does not store the length as 4 big-endian bytes")
-	var pvals []int64
-	ast.Inspect(sl.Decl.Body, func(n ast.Node) bool {
-		if as, ok := n.(*ast.AssignStmt); ok && len(as.Lhs) == 1 && len(stores) > 0 && exprStr(as.Lhs[0]) == stores[0].Sym {
-			if k, ok := constInt(sinfo, as.Rhs[0]); ok {
-				pvals = append(pvals, k)
-			}
-		}
-		return true
-	})
-	r.Check(len(pvals) == 2 && (pvals[0] == 4 && pvals[1] == 5 || pvals[0] == 5 && pvals[1] == 4), sl.Decl, "setLength offsets 4/5", "length offset = header size - 4 in both classes", fmt.Sprintf("setLength offsets %v do not equal header size-4 (4 and 5)", pvals))
 	// newFramer headSize 8/9
 	ninfo := nf.Pkg.TypesInfo
 	var hs []int64
